@@ -9,6 +9,7 @@ import OrasModel.Driver.Pf
 import OrasModel.Driver.Tr
 import OrasModel.Driver.Rt
 import OrasModel.Driver.Pk
+import OrasModel.Driver.Cd
 open Oras.Driver
 
 structure DState where
@@ -17,6 +18,7 @@ structure DState where
   cp : Cp.St := {}
   fr : Fr.St := {}
   o : O.St := {}
+  cd : Cd.St := {}
 
 def answer (r : Option (α × String × String)) (st : DState) (upd : α → DState) : DState × String :=
   match r with
@@ -55,6 +57,7 @@ def handle (st : DState) (line : String) : DState × String :=
           let w := if o'.why.isEmpty then "" else " w=" ++ o'.why
           ({ st with o := o' }, s!"m={m} s={s}{w}")
         | none => (st, "bad-op"))
+  | "cd" :: rest => answer (Cd.step st.cd rest) st (fun c => { st with cd := c })
   | "v" :: rest => answer (V.step st.v rest) st (fun v => { st with v := v })
   | _ => (st, "bad-op")
 
